@@ -139,8 +139,8 @@ pub fn behaviour() -> Behaviour {
         cfg,
         adjust,
         render,
-        quick: 400,
-        thorough: 8000,
+        quick: 1500,
+        thorough: 20000,
         batch: 25,
         assumptions: &[],
     }
